@@ -402,6 +402,9 @@ var targetTypes = []*T{tNum, tNum, tStr, tBool, tBool, tTime, tList(tNum), tList
 	tObj(TF{"a", tNum}, TF{"b", tStr}), tList(tObj(TF{"a", tNum}, TF{"b", tStr})), tList(tList(tNum)), tList(tList(tStr)), tMap(tStr, tList(tStr))}
 
 var fixedPrograms = []string{
+	// the empty literals ([] : list[⊥], [:] : map[⊥,⊥]) next to typed operands of one type variable
+	`union([], xs)`, `union([], [1, 2])`, `union(xs, [])`, `intersect([], xs)`, `diff([], xs)`, `union([], xs) == xs`, `len(union([], ss))`,
+	`get([], 0, n1)`, `get([:], s1, n1)`, `xs == []`, `[] == xs`, `[:] == m`, `[[], xs]`, `[xs, []]`, `if(b1, [], xs)`, `union([[]], [xs])`, `union([], xs)[0] + 1`,
 	`[{a:1,b:"x"},{b:"y",a:2}][1].a`,
 	`[{a:1,b:"x"},{b:"y",a:2}][1].a + 1`,
 	`["a":1,"a":2]["a"]`,
